@@ -677,9 +677,13 @@ def r9(ctx, rep):
     # conditions under which a recorded site cannot be reached any more although it is still in the source
     st = syn.fn("Resolver::fold_statements", crate="prqlc")
     reserved = set()
+    import alpha as _alpha
+    A_st = _alpha.Inliner(st)
     for n in walk(st["body"]):
-        if n.get("k") == "if" and any(x.get("k") == "return" and "Err" in show(x.get("e"), maxdepth=4) for x in walk(n["t"])) and ".contains(" in show(n["c"], maxdepth=8) and "name" in show(n["c"], maxdepth=8):
-            reserved |= {x["p"] for x in walk(n["c"]) if x.get("k") == "path" and x["p"].startswith("NS_")}
+        if n.get("k") == "if" and any(x.get("k") == "return" and "Err" in show(x.get("e"), maxdepth=4) for x in walk(n["t"])):
+            ctxt = A_st.show(n["c"])          # named booleans / a named table of the reserved words are inlined
+            if ".contains(" in ctxt and "name" in ctxt:
+                reserved |= set(re.findall(r"\bNS_[A-Z_]+\b", ctxt))
     conds = {"reserved-names-rejected": {"NS_THIS", "NS_THAT", "NS_PARAM", "NS_SELF", "NS_INFER", "NS_INFER_MODULE"} <= reserved}
     rep.check(conds["reserved-names-rejected"], "reserved-names-rejected", f"declarations named like the resolver's own scopes (`this`, `that`, `_param`, `_self`, `_infer`, `_infer_module`) must be rejected "
               f"in fold_statements (found a rejection for {sorted(reserved)}): `let _infer = 1` otherwise makes later lookups panic", file=st["file"], line=st["l"], fn=st["path"])
